@@ -326,6 +326,7 @@ package participle
 // well-formed node for the root type is established by Build and is an unchecked assumption here.
 //@ func (*Parser[G]).parseInto [C06 C01]
 //@   requires ctx != nil && pcInv(ctx) && errOK(ctx.deepestError)
+//@   requires @assumed uf("fn__reflect.Value_.Kind_r0", "Int", rv) == reflect.Ptr
 //@   modifies ctx.PeekingLexer, ctx.apply, ctx.deepestError, ctx.deepestErrorDepth, ctx.depth
 //@   assume call node.Parse#1: arg0 != nil && wf(arg0)
 //@   assume call fmt.Errorf#1: false
@@ -527,9 +528,16 @@ package participle
 //@   modifies *p
 //@   ensures p.lex != nil
 
-//@ func (*Parser[G]).setCaseInsensitiveTokens
-//@   trusted
+// Every token type whose symbol was declared case-insensitive is marked (C01: case-folded literal matching
+// applies to exactly the token types the option names; the converse direction is by inspection of the one store).
+//@ func (*Parser[G]).setCaseInsensitiveTokens [C01]
+//@   requires p != nil && p.lex != nil
 //@   modifies p.caseInsensitiveTokens
+//@   let syms map[string]lexer.TokenType = result0 after call Definition.Symbols#1
+//@   loop 1 invariant p.caseInsensitiveTokens != nil && fresh(p.caseInsensitiveTokens)
+//@   loop 1 invariant foralls(s, visited(1, s) ==> has(syms, s))
+//@   loop 1 invariant foralls(s, visited(1, s) && p.caseInsensitive[s] ==> p.caseInsensitiveTokens[syms[s]])
+//@   ensures foralls(s, has(syms, s) && p.caseInsensitive[s] ==> p.caseInsensitiveTokens[syms[s]])
 //@ func validate
 //@   trusted
 //@ func newGeneratorContext
@@ -547,6 +555,7 @@ package participle
 //@ global lexer.TextScannerLexer != nil
 //@ func Build [C01 C13 C18 C15]
 //@   requires forall(k, 0, len(options), options[k] != nil)
+//@   modifies family(strct)
 //@   let la int = p.useLookahead after call Definition.Symbols#1
 //@   let lx lexer.Definition = p.lex after call Definition.Symbols#1
 //@   let nm int = len(p.mappers) after call Definition.Symbols#1
@@ -635,13 +644,18 @@ package participle
 //@ func (*structLexer).Field
 //@   trusted
 //@   pure
+//@   ensures result.Type != nil
 
-//@ func indirectType
-//@   trusted
+// rkind(t): the Kind of a reflect.Type (what t.Kind() returns); Elem() is only defined for Array, Chan, Map,
+// Ptr and Slice and panics otherwise (stub precondition, /verif/stubs/stdlib.spec).
+//@ func indirectType [C19]
+//@   requires t != nil
 //@   pure
-//@   ensures result != nil
+//@   ensures result != nil && uf("rtype_kind", "Int", result) != reflect.Ptr && uf("rtype_kind", "Int", result) != reflect.Slice
 
 //@ func (*generatorContext).parseNegation [C19]
+//@   requires g != nil && g.typeNodes != nil
+//@   modifies mapof(g.typeNodes), family(strct)
 //@   requires slexer != nil
 //@   ensures result1 == nil ==> result0 != nil && wfc(result0)
 //@   use wfcNegation(result0.(*negation)) at exit
@@ -650,6 +664,8 @@ package participle
 // mode, for [ ] and { }, stays what it was): ! + * ? select the four modes, anything else leaves the
 // operand as it is (C01: the node graph means what the tag says).
 //@ func (*generatorContext).parseModifier [C19 C01]
+//@   requires g != nil && g.typeNodes != nil
+//@   modifies mapof(g.typeNodes), family(strct)
 //@   requires slexer != nil && (expr != nil ==> wfc(expr))
 //@   let tk lexer.TokenType = result0.Type after call (*participle.structLexer).Peek#1
 //@   ensures result1 == nil && expr != nil ==> result0 != nil && wfc(result0)
@@ -660,14 +676,17 @@ package participle
 //@   ensures result1 == nil && expr != nil && tk == '+' ==> result0.(*group).mode == groupMatchOneOrMore [C01]
 //@   ensures result1 == nil && expr != nil && tk == '*' ==> result0.(*group).mode == groupMatchZeroOrMore [C01]
 //@   ensures result1 == nil && expr != nil && tk == '?' ==> result0.(*group).mode == groupMatchZeroOrOne [C01]
-//@   modifies nothing
 //@   use wfcGroup(result0.(*group)) at exit
 
 //@ func (*generatorContext).parseTermNoModifiers [C19]
+//@   requires g != nil && g.typeNodes != nil
+//@   modifies mapof(g.typeNodes), family(strct)
 //@   requires slexer != nil
 //@   ensures result1 == nil && result0 != nil ==> wfc(result0)
 
 //@ func (*generatorContext).parseTerm [C19]
+//@   requires g != nil && g.typeNodes != nil
+//@   modifies mapof(g.typeNodes), family(strct)
 //@   requires slexer != nil
 //@   ensures result1 == nil && result0 != nil ==> wfc(result0)
 
@@ -687,6 +706,8 @@ package participle
 //@   requires lseg(h, c) && c != nil && c.node != nil && wfc(c.node) && c.next == nil
 //@   ensures wfc(iface(h))
 //@ func (*generatorContext).parseSequence [C19]
+//@   requires g != nil && g.typeNodes != nil
+//@   modifies mapof(g.typeNodes), family(strct)
 //@   requires slexer != nil
 //@   ensures result1 == nil && result0 != nil ==> wfc(result0)
 //@   use lsegRefl(head) at loop 1 entry
@@ -698,6 +719,8 @@ package participle
 //@   loop 1 nonterminating-ok
 
 //@ func (*generatorContext).parseDisjunction [C19]
+//@   requires g != nil && g.typeNodes != nil
+//@   modifies mapof(g.typeNodes), family(strct)
 //@   requires slexer != nil
 //@   ensures result1 == nil ==> result0 != nil && wfc(result0)
 //@   requires @assumed g.Definition != nil
@@ -706,50 +729,89 @@ package participle
 //@   loop 1 nonterminating-ok
 
 //@ func (*generatorContext).parseCapture [C19]
+//@   requires g != nil && g.typeNodes != nil
+//@   modifies mapof(g.typeNodes), family(strct)
 //@   requires slexer != nil
 //@   ensures result1 == nil ==> result0 != nil && wfc(result0)
 //@   use wfcCapture(result0.(*capture)) at exit
 
 //@ func (*generatorContext).parseReference [C19]
+//@   requires g != nil && g.typeNodes != nil
+//@   modifies mapof(g.typeNodes), family(strct)
 //@   requires slexer != nil
 //@   requires @assumed g.Definition != nil
 //@   ensures result1 == nil ==> result0 != nil && wfc(result0)
 //@   use wfcLeaf(result0) at exit
 
 //@ func (*generatorContext).parseLiteral [C19]
+//@   requires g != nil && g.typeNodes != nil
+//@   modifies mapof(g.typeNodes), family(strct)
 //@   requires lex != nil
 //@   requires @assumed g.Definition != nil
 //@   ensures result1 == nil ==> result0 != nil && wfc(result0)
 //@   use wfcLeaf(result0) at exit
 
 //@ func (*generatorContext).parseOptional [C19]
+//@   requires g != nil && g.typeNodes != nil
+//@   modifies mapof(g.typeNodes), family(strct)
 //@   requires slexer != nil
 //@   ensures result1 == nil ==> result0 != nil && wfc(result0)
 //@   use wfcGroup(result0.(*group)) at exit
 
 //@ func (*generatorContext).parseRepetition [C19]
+//@   requires g != nil && g.typeNodes != nil
+//@   modifies mapof(g.typeNodes), family(strct)
 //@   requires slexer != nil
 //@   ensures result1 == nil ==> result0 != nil && wfc(result0)
 //@   use wfcGroup(result0.(*group)) at exit
 
 //@ func (*generatorContext).parseGroup [C19]
+//@   requires g != nil && g.typeNodes != nil
+//@   modifies mapof(g.typeNodes), family(strct)
 //@   requires slexer != nil
 //@   ensures result1 == nil ==> result0 != nil && wfc(result0)
 //@   use wfcGroup(result0.(*group)) at exit
 
 //@ func (*generatorContext).subparseLookaheadGroup [C19]
+//@   requires g != nil && g.typeNodes != nil
+//@   modifies mapof(g.typeNodes), family(strct)
 //@   requires slexer != nil
 //@   ensures result1 == nil ==> result0 != nil && wfc(result0)
 //@   use wfcLookahead(result0.(*lookaheadGroup)) at exit
 
 //@ func (*generatorContext).subparseGroup [C19]
+//@   requires g != nil && g.typeNodes != nil
+//@   modifies mapof(g.typeNodes), family(strct)
 //@   requires slexer != nil
 //@   ensures result1 == nil ==> result0 != nil && wfc(result0)
 
 // parseType returns the (possibly still in-progress, see wfc) node for a Go type.
-//@ func (*generatorContext).parseType
-//@   trusted
+// parseType: the type -> node table only ever holds production nodes (*strct, *union, *custom) and no typed nil
+// (assumed invariant of the table: parseType, addUnionDefs and addCustomDefs are its only writers and store
+// freshly allocated nodes). reflect's own preconditions (Elem, Implements) are obligations here.
+//@ global parseableType != nil && uf("rtype_kind", "Int", parseableType) == reflect.Interface
+//@ global captureType != nil && uf("rtype_kind", "Int", captureType) == reflect.Interface
+//@ global textUnmarshalerType != nil && uf("rtype_kind", "Int", textUnmarshalerType) == reflect.Interface
+//@ func (*generatorContext).parseType [C19]
+//@   requires g != nil && t != nil && g.typeNodes != nil
+//@   requires @assumed forallt(k, reflect.Type, has(g.typeNodes, k) ==> g.typeNodes[k] != nil && (typeis(g.typeNodes[k], *strct) || typeis(g.typeNodes[k], *union) || typeis(g.typeNodes[k], *custom)) && (typeis(g.typeNodes[k], *strct) ==> g.typeNodes[k].(*strct) != nil))
 //@   ensures returnedError == nil ==> result0 != nil && wfc(result0)
+//@   modifies mapof(g.typeNodes), family(strct)
+//@   use wfcLeaf(result0) at exit
+
+//@ func lexStruct
+//@   trusted
+//@   fresh result0
+//@   ensures result1 == nil ==> result0 != nil && len(result0.indexes) >= 0
+//@ func newStrct
+//@   trusted
+//@   fresh result
+//@   ensures result != nil && result.typ == typ && result.expr == nil
+//@ func decorate
+//@   trusted
+//@   requires err != nil
+//@   modifies *err
+//@   ensures (old(*err) == nil) == (*err == nil)
 
 // struct.go: the scanner's error callback of the tag lexer keeps every error except the one about
 // multi-character char literals (single-quoted strings are allowed in tags); in particular
